@@ -45,6 +45,7 @@ class Case:
     def describe(self):
         return {'id': self.cid, 'kind': self.kind, 'nchains': self.nchains, 'betas': self.betas,
                 'swap_interval': self.swap_interval, 'reset_after_swap': self.reset_after_swap,
+                'unlisted': getattr(self, 'unlisted', None),
                 'dynamic': self.dynamic, 'params': self.params, 'props': self.props,
                 'model': self.model_kind, 'blobs': self.blobs, 'seed': self.seed,
                 'prop_seed': self.prop_seed, 'ops': self.ops,
@@ -58,6 +59,7 @@ class Case:
             if k in d:
                 setattr(c, k, d[k])
         c.model_kind = d.get('model', c.model_kind)
+        c.unlisted = d.get('unlisted')
         c.params = [tuple(p[:2]) + (tuple(p[2]) if p[2] is not None else None,) for p in d['params']]
         c.props = [(f, list(ps), dict(kw)) for f, ps, kw in d['props']]
         c.ops = [tuple(o) for o in d['ops']]
@@ -131,6 +133,16 @@ def gen_case(rng, cid, families=None, kinds=('mh', 'pt'), allow_saveload=True,
     # reset_after_swap: exchanged levels restart their adaptation (a third of the tempered cases)
     if c.kind == 'pt' and orng.random() < 0.35:
         c.reset_after_swap = True
+    # a proposal is given for a SUBSET of the parameters only (the sampler builds its default proposal
+    # for the rest): one proposal over continuous parameters is left out in a fifth of the cases
+    c.unlisted = None
+    cont = [i for i, (fam, _, _) in enumerate(c.props) if F.FAMILIES[fam][1] in ('real', 'angle', 'box')]
+    if len(c.props) >= 2 and cont and orng.random() < 0.2:
+        c.unlisted = orng.choice(cont)
+    # the jump interval arrives as a numpy integer now and then
+    for _, _, kw in c.props:
+        if 'jump_interval' in kw and orng.random() < 0.3:
+            kw['jump_interval'] = numpy.int64(kw['jump_interval'])
     # optional constructor arguments of the proposals at non-default values (half of the cases)
     if orng.random() < 0.5:
         for _, _, kw in c.props:
@@ -168,6 +180,8 @@ def build_sampler(c, seed, model):
     prng = random.Random(c.prop_seed)
     doms = {name: dom for name, kind, dom in c.params}
     props = [F.make(fam, names, doms, prng, **kw) for fam, names, kw in c.props]
+    if getattr(c, 'unlisted', None) is not None:
+        props = [p for i, p in enumerate(props) if i != c.unlisted]
     pnames = [p[0] for p in c.params]
     if c.kind == 'mh':
         return MetropolisHastingsSampler(pnames, model, c.nchains, proposals=props, seed=seed)
